@@ -364,6 +364,7 @@ Lemma fold_climb t d : forall c o,
   (forall k, (k <= d)%nat -> lookup k c = None) ->
   lookup (S d) c <> None ->
   fold_tres (fun c' k => backfill_cell t k c') (rev (seq 0 (S d))) c = TOk o ->
+  length o = (length c + S d)%nat /\
   (forall k, (d < k)%nat -> lookup k o = lookup k c) /\
   (forall k, (k <= d)%nat -> exists finer p,
       lookup (S k) o = Some finer /\ parent_of (nth k t []) (o_asg finer) = Some p /\
@@ -373,7 +374,7 @@ Proof.
   - cbn in H. unfold backfill_cell in H. rewrite (Hnone 0%nat) in H by lia.
     destruct (lookup 1 c) as [f|] eqn:Ef; [|congruence].
     destruct (parent_of (nth 0 t []) (o_asg f)) as [p|] eqn:Ep; [|discriminate].
-    inversion H; subst o. split.
+    inversion H; subst o. split; [rewrite app_length; cbn; lia|]. split.
     + intros k Hk. rewrite lookup_app. destruct (lookup k c); [reflexivity|].
       cbn. destruct k; [lia | reflexivity].
     + intros k Hk. assert (k = 0)%nat by lia. subst k. exists f, p.
@@ -389,11 +390,11 @@ Proof.
       cbn. apply Nat.eqb_neq in Hk. rewrite Hk. reflexivity. }
     assert (L2 : lookup (S d) c1 = Some (inferred p f)).
     { unfold c1. rewrite lookup_app, (Hnone (S d)) by lia. cbn. rewrite Nat.eqb_refl. reflexivity. }
-    destruct (IH c1 o) as (A1 & A2).
+    destruct (IH c1 o) as (A0 & A1 & A2).
     + intros k Hk. rewrite L1 by lia. apply Hnone. lia.
     + rewrite L2. discriminate.
     + exact H.
-    + split.
+    + split; [rewrite A0; unfold c1; rewrite app_length; cbn; lia|]. split.
       * intros k Hk. rewrite A1 by lia. apply L1. lia.
       * intros k Hk. destruct (Nat.eq_dec k (S d)) as [->|Hne].
         -- exists f, p. split; [rewrite A1 by lia; rewrite L1 by lia; exact Ef|]. split; [exact Ep|].
@@ -468,10 +469,12 @@ Definition drop_rel (t : tree) (li : nat) (a b : cellmap) : Prop :=
     parent_of (nth li t []) (o_asg fine) = Some p /\
     lookup li a = Some (inferred p fine).
 
-Lemma backfill_one_drop t li row o :
+(* the completed cell: the placed records, then the dropped level *)
+Lemma backfill_one_drop_form t li row o :
   (S li < length t)%nat -> length row = (length t - 1)%nat ->
   backfill_one (drop_cells t) (place (remove_nth li (seq 0 (length t))) row) = TOk o ->
-  drop_rel t li o (place (seq 0 (length t - 1)) row).
+  exists r p, nth_error row li = Some r /\ parent_of (nth li t []) (asg r) = Some p /\
+              o = place (remove_nth li (seq 0 (length t))) row ++ [(li, inferred p (direct r))].
 Proof.
   intros Hli Hlen H. set (n := length t) in *.
   set (c := place (remove_nth li (seq 0 n)) row) in *.
@@ -493,17 +496,35 @@ Proof.
   rewrite (fold_single_gap _ _ li _ c (direct r)) in H; [| | |exact Lli|exact LS].
   - rewrite drop_cells_nth in H by lia. cbn [direct o_asg] in H.
     destruct (parent_of (nth li t []) (asg r)) as [p|] eqn:Ep; [|discriminate].
-    inversion H; subst o. clear H. split.
-    + intros k Hk. rewrite lookup_app.
-      assert (E : lookup k [(li, inferred p (direct r))] = None)
-        by (cbn; apply Nat.eqb_neq in Hk; rewrite Hk; reflexivity).
-      rewrite E. rewrite lookup_place_id by exact Hlen.
-      rewrite Lc. apply Nat.eqb_neq in Hk. rewrite Hk. unfold down_level.
-      destruct (option_map direct (nth_error row (if (k <? li)%nat then k else pred k))); reflexivity.
-    + exists (direct r), p. split; [rewrite lookup_app, LS; reflexivity|]. split; [reflexivity|].
-      split; [exact Ep|]. rewrite lookup_app, Lli. cbn. rewrite Nat.eqb_refl. reflexivity.
+    inversion H; subst o. exists r, p. auto.
   - intros k Hk. apply in_rev in Hk. apply in_seq in Hk. apply Lother; lia.
   - intros k Hk. apply in_rev in Hk. apply in_seq in Hk. apply Lother; lia.
+Qed.
+
+Lemma backfill_one_drop t li row o :
+  (S li < length t)%nat -> length row = (length t - 1)%nat ->
+  backfill_one (drop_cells t) (place (remove_nth li (seq 0 (length t))) row) = TOk o ->
+  drop_rel t li o (place (seq 0 (length t - 1)) row).
+Proof.
+  intros Hli Hlen H.
+  destruct (backfill_one_drop_form t li row o Hli Hlen H) as (r & p & Er & Ep & ->).
+  set (n := length t) in *. set (c := place (remove_nth li (seq 0 n)) row) in *.
+  assert (Lc : forall k, lookup k c = if (k =? li)%nat then None else option_map direct (nth_error row (down_level li k))).
+  { intros k. unfold c. apply lookup_place_drop; [lia | exact Hlen]. }
+  assert (Lli : lookup li c = None) by (rewrite Lc, Nat.eqb_refl; reflexivity).
+  assert (LS : lookup (S li) c = Some (direct r)).
+  { rewrite Lc. replace (S li =? li)%nat with false by (symmetry; apply Nat.eqb_neq; lia).
+    unfold down_level. replace (S li <? li)%nat with false by (symmetry; apply Nat.ltb_ge; lia).
+    cbn [pred]. rewrite Er. reflexivity. }
+  split.
+  - intros k Hk. rewrite lookup_app.
+    assert (E : lookup k [(li, inferred p (direct r))] = None)
+      by (cbn; apply Nat.eqb_neq in Hk; rewrite Hk; reflexivity).
+    rewrite E. rewrite lookup_place_id by exact Hlen.
+    rewrite Lc. apply Nat.eqb_neq in Hk. rewrite Hk. unfold down_level.
+    destruct (option_map direct (nth_error row (if (k <? li)%nat then k else pred k))); reflexivity.
+  - exists (direct r), p. split; [rewrite lookup_app, LS; reflexivity|]. split; [reflexivity|].
+    split; [exact Ep|]. rewrite lookup_app, Lli. cbn. rewrite Nat.eqb_refl. reflexivity.
 Qed.
 
 (* ------------------------------------------------------------------ one cell, flattened *)
@@ -526,7 +547,7 @@ Proof.
   unfold flat_rel. fold n.
   destruct (n - 1)%nat as [|d] eqn:En.
   - cbn in H. inversion H; subst o. split; [reflexivity|]. intros k Hk. lia.
-  - destruct (fold_climb (drop_cells t) d [(S d, direct r)] o) as (A1 & A2).
+  - destruct (fold_climb (drop_cells t) d [(S d, direct r)] o) as (_ & A1 & A2).
     + intros k Hk. cbn. replace (k =? S d)%nat with false by (symmetry; apply Nat.eqb_neq; lia). reflexivity.
     + cbn. rewrite Nat.eqb_refl. discriminate.
     + exact H.
@@ -625,3 +646,116 @@ Proof.
   - left. f_equal. eapply backfill_err. exact EA.
 Qed.
 End Theorems.
+
+(* ------------------------------------------------------------------ the completed cell is a path of the stored tree *)
+Lemma nat_mem_in k l : nat_mem k l = true <-> In k l.
+Proof.
+  unfold nat_mem. rewrite existsb_exists. split.
+  - intros (x & Hx & E). apply Nat.eqb_eq in E. subst. exact Hx.
+  - intros H. exists k. split; [exact H | apply Nat.eqb_refl].
+Qed.
+
+Lemma opt_all_some {A B} (f : A -> option B) l :
+  (forall x, In x l -> exists y, f x = Some y) ->
+  exists ys, opt_all (map f l) = Some ys /\ map Some ys = map f l.
+Proof.
+  induction l as [|a l IH]; intros H; cbn.
+  - exists []. split; reflexivity.
+  - destruct (H a (or_introl eq_refl)) as (y & Ey).
+    destruct IH as (ys & E1 & E2); [intros x Hx; apply H; right; exact Hx|].
+    rewrite Ey, E1. exists (y :: ys). split; [reflexivity|]. cbn. rewrite E2. reflexivity.
+Qed.
+
+Lemma path_ok_elim t row : Election.path_ok t row = true ->
+  length row = length t /\
+  (forall k r, nth_error row k = Some r -> In (asg r) (nodes (nth k t []))) /\
+  (forall k r r', nth_error row k = Some r -> nth_error row (S k) = Some r' ->
+                  In (asg r') (children_of (nth k t []) (asg r))).
+Proof.
+  revert row. induction t as [|lv t' IH]; intros row H.
+  - destruct row; [|discriminate]. split; [reflexivity|]. split; intros k; destruct k; discriminate.
+  - destruct row as [|r row']; [discriminate|]. cbn [Election.path_ok] in H.
+    apply andb_true_iff in H. destruct H as [H H3]. apply andb_true_iff in H. destruct H as [H1 H2].
+    destruct (IH row' H3) as (L & N & C). split; [cbn; lia|]. split.
+    + intros [|k] r0 Hk; cbn in Hk.
+      * inversion Hk; subst. apply zmem_in. exact H1.
+      * apply (N k). exact Hk.
+    + intros [|k] r0 r1 Hk Hk1; cbn in Hk, Hk1.
+      * inversion Hk; subst. destruct t' as [|lv2 t'']; [destruct row'; [discriminate | cbn in L; discriminate]|].
+        destruct row' as [|r' row'']; [discriminate|]. cbn in Hk1. inversion Hk1; subst.
+        apply zmem_in. exact H2.
+      * apply (C k r0 r1); assumption.
+Qed.
+
+Lemma frac_eqb_refl a : frac_eqb a a = true.
+Proof. unfold frac_eqb. rewrite !Z.eqb_refl. reflexivity. Qed.
+Lemma ofrac_eqb_refl a : ofrac_eqb a a = true.
+Proof. destruct a as [x|]; [apply frac_eqb_refl | reflexivity]. Qed.
+
+Lemma cell_ok_intro t m o :
+  validate t = true -> wf t ->
+  length o = length t ->
+  (forall k, (k < length t)%nat -> exists e, lookup k o = Some e /\
+     (if nat_mem k m
+      then o_direct e = true /\ o_runners e <> None /\ In (o_asg e) (nodes (nth k t [])) /\
+           (forall f, lookup (S k) o = Some f -> (S k < length t)%nat ->
+                      In (o_asg f) (children_of (nth k t []) (o_asg e)))
+      else exists f p, lookup (S k) o = Some f /\ parent_of (nth k t []) (o_asg f) = Some p /\
+                       e = inferred p f)) ->
+  cell_ok t m o = true.
+Proof.
+  intros V W Hlen H. unfold cell_ok. rewrite Hlen, Nat.eqb_refl. cbn [andb].
+  destruct (opt_all_some (fun k => lookup k o) (seq 0 (length t))) as (es & E1 & E2).
+  { intros k Hk. apply in_seq in Hk. destruct (H k) as (e & He & _); [lia|]. eauto. }
+  rewrite E1.
+  assert (Les : length es = length t).
+  { apply (f_equal (@length _)) in E2. rewrite !map_length, seq_length in E2. exact E2. }
+  assert (Hes : forall k e, nth_error es k = Some e -> (k < length t)%nat /\ lookup k o = Some e).
+  { intros k e He. assert (Hk : (k < length t)%nat) by (rewrite <- Les; apply nth_error_Some; congruence).
+    split; [exact Hk|]. apply (f_equal (fun l => nth_error l k)) in E2.
+    rewrite !nth_error_map, nth_error_seq, He in E2 by exact Hk. cbn in E2. inversion E2. reflexivity. }
+  (* the assignment at level k is a node of level k; the finer one is among its children *)
+  assert (Hnode : forall k e, lookup k o = Some e -> (k < length t)%nat -> In (o_asg e) (nodes (nth k t []))).
+  { intros k e He Hk. destruct (H k Hk) as (e' & He' & Hc). rewrite He in He'. inversion He'; subst e'.
+    destruct (nat_mem k m); [tauto|]. destruct Hc as (f & p & _ & Hp & ->). cbn.
+    apply (parent_of_children t k p (o_asg f) W Hp). }
+  assert (Hchild : forall k e f, lookup k o = Some e -> lookup (S k) o = Some f -> (S k < length t)%nat ->
+                                 In (o_asg f) (children_of (nth k t []) (o_asg e))).
+  { intros k e f He Hf Hk. destruct (H k ltac:(lia)) as (e' & He' & Hc). rewrite He in He'. inversion He'; subst e'.
+    destruct (nat_mem k m); [destruct Hc as (_ & _ & _ & Hc); apply Hc; assumption|].
+    destruct Hc as (f' & p & Hf' & Hp & ->). rewrite Hf in Hf'. inversion Hf'; subst f'. cbn.
+    apply (parent_of_children t k p (o_asg f) W Hp). }
+  apply andb_true_intro. split.
+  - apply path_ok_intro.
+    + rewrite map_length. exact Les.
+    + intros k r Hr. rewrite nth_error_map in Hr. destruct (nth_error es k) as [e|] eqn:Ee; [|discriminate].
+      inversion Hr; subst r. cbn [to_rec asg]. destruct (Hes k e Ee) as [Hk He]. apply Hnode; assumption.
+    + intros k r r' Hr Hr'. rewrite nth_error_map in Hr, Hr'.
+      destruct (nth_error es k) as [e|] eqn:Ee; [|discriminate].
+      destruct (nth_error es (S k)) as [f|] eqn:Ef; [|discriminate].
+      inversion Hr; subst r. inversion Hr'; subst r'. cbn [to_rec asg].
+      destruct (Hes k e Ee) as [Hk He]. destruct (Hes (S k) f Ef) as [Hk' Hf]. eapply Hchild; eauto.
+  - apply forallb_forall. intros k Hk. apply in_seq in Hk.
+    destruct (H k ltac:(lia)) as (e & He & Hc). rewrite He. unfold level_ok.
+    destruct (nat_mem k m).
+    + destruct Hc as (Hd & Hr & _). rewrite Hd. destruct (o_runners e); [reflexivity | congruence].
+    + destruct Hc as (f & p & Hf & Hp & ->). rewrite Hf. cbn. rewrite Hp, Z.eqb_refl.
+      rewrite !frac_eqb_refl, ofrac_eqb_refl. reflexivity.
+Qed.
+
+(* no reduction *)
+Lemma cell_ok_id t row : validate t = true -> wf t -> Election.path_ok t row = true ->
+  cell_ok t (seq 0 (length t)) (place (seq 0 (length t)) row) = true.
+Proof.
+  intros V W P. destruct (path_ok_elim t row P) as (L & N & C).
+  apply cell_ok_intro; auto.
+  - unfold place. rewrite combine_length, seq_length, map_length. lia.
+  - intros k Hk. rewrite lookup_place_id by exact L.
+    destruct (nth_error row k) as [r|] eqn:Er; [|apply nth_error_None in Er; lia].
+    exists (direct r). split; [reflexivity|].
+    replace (nat_mem k (seq 0 (length t))) with true by (symmetry; apply nat_mem_in, in_seq; lia).
+    split; [reflexivity|]. split; [discriminate|]. split; [apply (N k r Er)|].
+    intros f Hf HS. rewrite lookup_place_id in Hf by exact L.
+    destruct (nth_error row (S k)) as [r'|] eqn:Er'; [|discriminate]. cbn in Hf. inversion Hf; subst f.
+    cbn. apply (C k r r' Er Er').
+Qed.
